@@ -1,5 +1,5 @@
 """C07 — compaction and flushing are invisible to readers."""
-from gen import lib, vfn, dbh
+from gen import lib, vfn, dbh, c01
 
 PROP_FILE = "props/C07.v"
 RULE = ("vfn: random well-formed versions (levels >= 1 sorted and disjoint, consecutive files may "
@@ -33,7 +33,7 @@ def gen_db(tier, rng):
 
 def suites(tier, seed, rng):
     return [vfn.VfnSuite("vfn", corpus() + vfn.gen(tier, rng, {"range", "oci", "fin", "plmo"}), lambda i, s, c: True),
-            dbh.DbSuite(dbh.corpus("C07") + gen_db(tier, rng))]
+            dbh.DbSuite(dbh.corpus("C07") + gen_db(tier, rng) + c01.gen_seek_l0(tier, rng))]
 
 
 def replay_suites(rp):
